@@ -29,6 +29,7 @@ fn main() {
             "--replay" => {
                 i += 1;
                 replay = Some(args[i].clone());
+                std::env::set_var("BPV_REPLAY", "1");
             }
             "--budget" => {
                 i += 1;
